@@ -23,7 +23,7 @@ D_COUNTER = "fresh"
 FAULTS = ["assert", "div", "idx"]
 D_FAULT = "div"
 
-LEAF_KINDS = ("plain", "call", "break", "continue", "return", "fault", "store", "defcall")
+LEAF_KINDS = ("plain", "call", "break", "continue", "return", "fault", "store", "defcall", "tplain")
 
 
 def leaves(in_loop, simple=False):
@@ -31,7 +31,7 @@ def leaves(in_loop, simple=False):
     if in_loop:
         out += [("break",), ("continue",)]
     if not simple:
-        out += [("fault", D_FAULT), ("call",), ("store",), ("defcall",)]
+        out += [("fault", D_FAULT), ("call",), ("store",), ("defcall",), ("tplain",)]
     return out
 
 
@@ -197,6 +197,9 @@ def stmts(ctx, s, counters, K, depth, can_return=True):
     k = s[0]
     if k == "plain":
         return [("assign", "acc", ("bin", "+", var("acc"), ("int", 1)), None, ())]
+    if k == "tplain":
+        # the same update written as a typed assignment (another parser path; it must update the variable of the enclosing block)
+        return [("assign", "acc", ("bin", "+", var("acc"), ("int", 2)), "int", ())]
     if k == "call":
         return [("assign", "acc", ("call", var("g"), [var(K)]), None, ())]
     if k == "defcall":
